@@ -10,7 +10,7 @@ import numpy as np
 import magpylib as magpy
 from magpylib._src.exceptions import MagpylibBadUserInput
 
-from harness import octa, level2
+from harness import octa, level2, l2b
 
 
 # ------------------------------------------------------------------ specs
@@ -111,8 +111,16 @@ def g_history(rng, nops=8):
             kids = [objs.index(k) for k in objs[c].children]
             keep = [k for k in kids if rng.random() < 0.6]
             op = {"op": "children", "col": c, "keep": keep, "new": g_leafspec(rng, uid) if rng.random() < 0.5 else None}
-        elif x < 0.9:
+        elif x < 0.86:
             op = {"op": "excite", "obj": rng.choice(srcs), "val": rng.randint(-3, 3)}
+        elif x < 0.9:
+            # pose of a (nested) collection through move / rotate / the position attribute: children follow
+            op = {"op": "colpose", "col": rng.choice(cols), "how": rng.choice(["move", "rotate", "position", "reset"]),
+                  "vec": [rng.randint(-2, 2) for _ in range(3)], "ori": rng.randrange(24)}
+        elif x < 0.93:
+            op = {"op": "read", "col": rng.choice(cols)}
+        elif x < 0.95:
+            op = {"op": "reject", "col": rng.choice(cols)}
         else:
             op = {"op": "pose", "obj": rng.choice(srcs), "pos": [rng.randint(-3, 3) for _ in range(3)], "ori": rng.randrange(24)}
         apply_op(op, objs)
@@ -163,6 +171,33 @@ def apply_op(op, objs):
             o.polarization = (op["val"] / 4, 0.25, -0.5)
         else:
             o.current = op["val"] / 2
+    elif k == "colpose":
+        col = get(op["col"])
+        if col is None:
+            return False
+        if op["how"] == "move":
+            col.move(op["vec"])
+        elif op["how"] == "rotate":
+            col.rotate(octa.rot(op["ori"]))
+        elif op["how"] == "position":
+            col.position = op["vec"]
+        else:
+            col.reset_path()
+            col.reset_path()              # two resets in a row
+    elif k == "read":
+        col = get(op["col"])
+        if col is None:
+            return False
+        _ = (col.sources_all, col.sensors_all, col.collections_all, col.children_all, len(col), repr(col))
+    elif k == "reject":
+        col = get(op["col"])
+        if col is None:
+            return False
+        for bad in (lambda: col.add(col), lambda: col.add("not an object"), lambda: col.remove(magpy.Sensor())):
+            try:
+                bad()
+            except Exception:   # pylint: disable=broad-except
+                pass
     elif k == "pose":
         o = get(op["obj"])
         if o is None:
@@ -186,7 +221,7 @@ def current_leaves(o):
 
 def check_field(tops, field, sumup):
     """None or (clause, detail): the list call against sums of single-source calls on the current tree"""
-    f = magpy.getB if field == "B" else magpy.getH
+    f = l2b.field_fn(field)
     sens = magpy.Sensor(position=SENSOR["position"], pixel=SENSOR["pixel"])
     valid = [t for t in tops if current_leaves(t)]
     if not valid:
